@@ -86,6 +86,40 @@ theorem no_lookahead_logs (log₁ log₂ : List Version) (h₁ : Ordered log₁)
   rw [r1, r2]
   simp only [specRead, hT]
 
+
+/-- **no look-ahead for first reads**: versions stamped later than `T` never change an as-of-`T` read with `what = 0` either -/
+theorem no_lookahead_first (log later : List Version) (h : Ordered (log ++ later)) (hl : log ≠ []) (T : Int)
+    (hT : ∀ v ∈ later, T < v.stamp) (st st' : Store)
+    (hst : history log = some st) (hst' : history (log ++ later) = some st') :
+    biRead st' (some T) 0 = biRead st (some T) 0 := by
+  have h0 : Ordered log :=
+    ⟨hl, fun v hv => h.wf v (List.mem_append_left _ hv), (List.pairwise_append.mp h.stamps).1⟩
+  obtain ⟨s1, e1, r1⟩ := read_first log h0 (some T)
+  obtain ⟨s2, e2, r2⟩ := read_first _ h (some T)
+  rw [hst] at e1; cases e1
+  rw [hst'] at e2; cases e2
+  rw [r1, r2]
+  have : (logRows later).filter (fun r => decide (r.stamp ≤ T)) = [] := by
+    rw [List.filter_eq_nil_iff]
+    intro r hr
+    simp only [logRows, List.mem_flatMap, Bi, List.mem_map] at hr
+    obtain ⟨v, hv, _, _, rfl⟩ := hr
+    have := hT v hv
+    simp only [decide_eq_true_eq]; omega
+  simp only [specFirst, logRows_append, List.filter_append, this, List.append_nil]
+
+/-- two logs that agree on what was published by `T` have the same first reads as of `T` -/
+theorem no_lookahead_first_logs (log₁ log₂ : List Version) (h₁ : Ordered log₁) (h₂ : Ordered log₂) (T : Int)
+    (hT : (logRows log₁).filter (fun r => decide (r.stamp ≤ T)) = (logRows log₂).filter (fun r => decide (r.stamp ≤ T)))
+    (st₁ st₂ : Store) (e₁ : history log₁ = some st₁) (e₂ : history log₂ = some st₂) :
+    biRead st₁ (some T) 0 = biRead st₂ (some T) 0 := by
+  obtain ⟨s1, e1, r1⟩ := read_first log₁ h₁ (some T)
+  obtain ⟨s2, e2, r2⟩ := read_first log₂ h₂ (some T)
+  rw [e₁] at e1; cases e1
+  rw [e₂] at e2; cases e2
+  rw [r1, r2]
+  simp only [specFirst, hT]
+
 /-- **idempotence**: merging (again) a version whose values are the values the store shows as of that version's
     stamp - NaN entries allowed, they never override - leaves every as-of read and every first read unchanged.
     This covers re-merging the version merged last, and every earlier version that no later version sharing
@@ -187,6 +221,309 @@ theorem store_rows_published (log : List Version) (h : Ordered log) (st : Store)
   obtain ⟨v, hv, p, hp, rfl⟩ := this
   exact ⟨v, hv, rfl, hp⟩
 
+
+/-! ### the clauses as they are written (review r5): first value published, re-merging a stored version -/
+
+/-- **first read, exact**: `bi_read(what=0)` is the first value published per date (the clause as written) exactly when, for
+    every date, the publications sharing the date's first stamp fold to the first of them. -/
+theorem read_first_literal_iff (log : List Version) (h : Ordered log) (T : Option Int) :
+    ∃ st, history log = some st ∧
+      (biRead st T 0 = specFirstLiteral log T ↔
+        ∀ d ∈ dates (pubs log T), firstVal (group d (pubs log T)) = (group d (pubs log T)).head?.bind (·.val)) := by
+  obtain ⟨st, hst, hr⟩ := read_first log h T
+  refine ⟨st, hst, ?_⟩
+  rw [hr, specFirst_eq_pubs, specFirstLiteral_eq, List.map_inj_left]
+  constructor
+  · intro hh d hd; exact (Prod.mk.inj (hh d hd)).2
+  · intro hh d hd; rw [hh d hd]
+
+/-- **first read, literal**: if no date has two publications (visible as of `T`) with the same stamp - in particular if all
+    stamps of the history are distinct - `bi_read(what=0)` returns the first value published per date. -/
+theorem read_first_literal (log : List Version) (h : Ordered log) (T : Option Int)
+    (hd : ∀ d, ((group d (pubs log T)).map (·.stamp)).Nodup) :
+    ∃ st, history log = some st ∧ biRead st T 0 = specFirstLiteral log T := by
+  obtain ⟨st, hst, hiff⟩ := read_first_literal_iff log h T
+  refine ⟨st, hst, hiff.2 ?_⟩
+  intro d _
+  have := hd d
+  match hg : group d (pubs log T), this with
+  | [], _ => rfl
+  | r :: rest, hn =>
+    have hf : (r :: rest).filter (·.stamp == r.stamp) = [r] := by
+      simp only [List.filter_cons, beq_self_eq_true, if_true, List.cons.injEq, true_and]
+      rw [List.filter_eq_nil_iff]
+      intro x hx
+      simp only [List.map_cons, List.nodup_cons, List.mem_map, not_exists, not_and] at hn
+      have := hn.1 x hx
+      simp only [beq_iff_eq]; exact this
+    simp [firstVal, hf, lastVal]
+
+/-- it is enough that the stamps of the versions are pairwise distinct -/
+theorem read_first_literal_distinct (log : List Version) (h : Ordered log) (T : Option Int)
+    (hs : log.Pairwise (fun a b => a.stamp ≠ b.stamp)) :
+    ∃ st, history log = some st ∧ biRead st T 0 = specFirstLiteral log T := by
+  apply read_first_literal log h T
+  intro d
+  have hsub : (group d (pubs log T)).Sublist (group d (logRows log)) :=
+    List.Sublist.filter _ List.filter_sublist
+  refine List.Nodup.sublist (hsub.map _) ?_
+  -- per date, each version contributes at most one row
+  have hg := fun v (hv : v ∈ log) => (good_Bi v.ts v.stamp (h.wf v hv) d).1
+  clear hsub
+  induction log with
+  | nil => simp [logRows, group]
+  | cons v rest ih =>
+    have e : logRows (v :: rest) = Bi v.ts v.stamp ++ logRows rest := by simp [logRows]
+    rw [e, group_append, List.map_append]
+    have hrest : Ordered rest ∨ rest = [] := by
+      by_cases hr : rest = []
+      · exact Or.inr hr
+      · exact Or.inl ⟨hr, fun w hw => h.wf w (by simp [hw]), (List.pairwise_cons.mp h.stamps).2⟩
+    have hv1 : ∀ r ∈ group d (Bi v.ts v.stamp), r.stamp = v.stamp := by
+      intro r hr
+      have := (mem_group.mp hr).1
+      simp only [Bi, List.mem_map] at this
+      obtain ⟨_, _, rfl⟩ := this; rfl
+    have h1 : ((group d (Bi v.ts v.stamp)).map (·.stamp)).Nodup := by
+      have := hg v (by simp)
+      exact (List.Pairwise.map _ (fun a b (hab : a.stamp < b.stamp) => (by omega : a.stamp ≠ b.stamp)) this)
+    have h2 : ((group d (logRows rest)).map (·.stamp)).Nodup := by
+      rcases hrest with hr | hr
+      · exact ih hr (List.pairwise_cons.mp hs).2 (fun w hw => hg w (by simp [hw]))
+      · subst hr; simp [logRows, group]
+    refine List.nodup_append.mpr ⟨h1, h2, ?_⟩
+    intro a ha b hb
+    simp only [List.mem_map] at ha hb
+    obtain ⟨ra, hra, rfl⟩ := ha
+    obtain ⟨rb, hrb, rfl⟩ := hb
+    rw [hv1 ra hra]
+    have := (mem_group.mp hrb).1
+    simp only [logRows, List.mem_flatMap, Bi, List.mem_map] at this
+    obtain ⟨w, hw, _, _, rfl⟩ := this
+    exact (List.pairwise_cons.mp hs).1 w hw
+
+/-- two versions with one stamp: `5` then `6` for the same date -/
+def sameStamp : List Version := [⟨10, [(1, some 5)]⟩, ⟨10, [(1, some 6)]⟩]
+
+theorem sameStamp_ordered : Ordered sameStamp := ⟨by simp [sameStamp], by decide, by decide⟩
+
+/-- **known finding C17-K1 (witness)**: the clause "what=0 returns the first value published per date" is false of the model (and
+    of the code, `law-read-first-literal`) when a second version shares the first stamp: `5@10` then `6@10` is read as `6`. -/
+theorem read_first_literal_fails :
+    ∃ log, Ordered log ∧ ∃ st, history log = some st ∧ biRead st Option.none 0 ≠ specFirstLiteral log Option.none ∧
+      (1, some 6) ∈ biRead st Option.none 0 ∧ (1, some 5) ∈ specFirstLiteral log Option.none := by
+  obtain ⟨st, hst, hr⟩ := read_first sameStamp sameStamp_ordered Option.none
+  have hp : pubs sameStamp Option.none = [⟨1, 10, some 5⟩, ⟨1, 10, some 6⟩] := by
+    simp [pubs, sameStamp, logRows, Bi, filter_vis_none]
+  have hd : (1 : Int) ∈ dates (pubs sameStamp Option.none) := by
+    rw [hp, mem_dates]; exact ⟨⟨1, 10, some 5⟩, by simp, rfl⟩
+  have h6 : (1, some 6) ∈ biRead st Option.none 0 := by
+    rw [hr, specFirst_eq_pubs, List.mem_map]
+    exact ⟨1, hd, by rw [hp]; decide⟩
+  have h5 : (1, some 5) ∈ specFirstLiteral sameStamp Option.none := by
+    rw [specFirstLiteral_eq, List.mem_map]
+    exact ⟨1, hd, by rw [hp]; decide⟩
+  refine ⟨sameStamp, sameStamp_ordered, st, hst, ?_, h6, h5⟩
+  intro he
+  rw [he, specFirstLiteral_eq, List.mem_map] at h6
+  obtain ⟨d, _, hd6⟩ := h6
+  rw [hp] at hd6
+  have hd1 : d = 1 := (Prod.mk.inj hd6).1
+  subst hd1
+  revert hd6; decide
+
+/-- **idempotence, as written**: merging a version that is already in the store - every row of it (date, stamp, value) is a
+    row of the store - leaves every as-of read and every first read unchanged. -/
+theorem merge_idem_rows (log : List Version) (h : Ordered log) (st : Store) (hst : history log = some st) (w : Version)
+    (hin : ∀ p ∈ w.ts, (⟨p.1, w.stamp, p.2⟩ : Row) ∈ st) (T : Option Int) :
+    biRead (biMerge (some st) (Bi w.ts w.stamp)) T (-1) = biRead st T (-1) ∧
+    biRead (biMerge (some st) (Bi w.ts w.stamp)) T 0 = biRead st T 0 := by
+  obtain ⟨st', hst', hg, _, _⟩ := history_inv log h.ne h.wf h.stamps
+  rw [hst] at hst'; cases hst'
+  exact merge_idem log h st hst w (rows_in_store_visible st hg w hin) T
+
+/-- a version merged earlier whose rows a same-stamp successor has replaced is NOT "in the store": merging it again makes it the
+    version merged last among those sharing its stamp, and the first clause of the property ("of several sharing a stamp the one
+    merged last") then demands the read to change.  Witness: `5@10`, `6@10`, again `5@10` - the log fold and the store both read
+    `5`, before the re-merge both read `6`.  So "already in the store" cannot mean "merged before". -/
+theorem remerge_overridden_changes_read :
+    ∃ log w, Ordered log ∧ w ∈ log ∧ Ordered (log ++ [w]) ∧ ∃ st, history log = some st ∧
+      ¬ (∀ p ∈ w.ts, (⟨p.1, w.stamp, p.2⟩ : Row) ∈ st) ∧
+      specRead (log ++ [w]) (some w.stamp) ≠ specRead log (some w.stamp) ∧
+      biRead (biMerge (some st) (Bi w.ts w.stamp)) (some w.stamp) (-1) ≠ biRead st (some w.stamp) (-1) := by
+  have ho : Ordered (sameStamp ++ [⟨10, [(1, some 5)]⟩]) := ⟨by simp [sameStamp], by decide, by decide⟩
+  obtain ⟨st, hst, hr⟩ := read_spec sameStamp sameStamp_ordered (some 10)
+  obtain ⟨st', hst', hr'⟩ := read_spec _ ho (some 10)
+  have hst'' : st' = biMerge (some st) (Bi [(1, some 5)] 10) := by
+    have : history (sameStamp ++ [⟨10, [(1, some 5)]⟩]) = some (biMerge (history sameStamp) (Bi [(1, some 5)] 10)) := by
+      simp [history, List.foldl_append]
+    rw [hst] at this; rw [this] at hst'; exact (Option.some.inj hst').symm
+  have hp : (logRows sameStamp).filter (fun r => decide (r.stamp ≤ 10)) = [⟨1, 10, some 5⟩, ⟨1, 10, some 6⟩] := by
+    simp [sameStamp, logRows, Bi]
+  have hp' : (logRows (sameStamp ++ [⟨10, [(1, some 5)]⟩])).filter (fun r => decide (r.stamp ≤ 10)) =
+      [⟨1, 10, some 5⟩, ⟨1, 10, some 6⟩, ⟨1, 10, some 5⟩] := by
+    simp [sameStamp, logRows, Bi]
+  have h5 : (1, some 5) ∈ specRead (sameStamp ++ [⟨10, [(1, some 5)]⟩]) (some 10) := by
+    simp only [specRead, hp', List.mem_map]
+    exact ⟨1, mem_dates.mpr ⟨⟨1, 10, some 5⟩, by simp, rfl⟩, by decide⟩
+  have h5' : (1, some 5) ∉ specRead sameStamp (some 10) := by
+    simp only [specRead, hp, List.mem_map, not_exists, not_and]
+    intro d _ hd
+    have hd1 : d = 1 := (Prod.mk.inj hd).1
+    subst hd1
+    revert hd; decide
+  have hne : specRead (sameStamp ++ [⟨10, [(1, some 5)]⟩]) (some 10) ≠ specRead sameStamp (some 10) := by
+    intro he; rw [he] at h5; exact h5' h5
+  refine ⟨sameStamp, ⟨10, [(1, some 5)]⟩, sameStamp_ordered, by simp [sameStamp], ho, st, hst, ?_, hne, ?_⟩
+  · intro hall
+    -- a store holding the row (1, 10, 5) would show 5 as of 10 (`rows_in_store_visible`), but it shows 6
+    obtain ⟨st2, hst2, hg, _, _⟩ := history_inv sameStamp sameStamp_ordered.ne sameStamp_ordered.wf sameStamp_ordered.stamps
+    rw [hst] at hst2; cases hst2
+    obtain ⟨y, hy, hy'⟩ := rows_in_store_visible st hg ⟨10, [(1, some 5)]⟩ hall (1, some 5) (by simp)
+    rcases hy' with hy' | hy'
+    · cases hy'
+    · rw [← hy', hr] at hy; exact h5' hy
+  · rw [← hst'', hr', hr]; exact hne
+
+/-! ### what an as-of read returns, said without the fold (review r5): the value of the version merged last among those stamped
+    `≤ T` that publish a non-NaN value for the date -/
+
+/-- **as-of value, declaratively**: the as-of-`T` read shows `x` for date `d` iff some version stamped `≤ T` publishes `x` for
+    `d` and no version merged after it and stamped `≤ T` publishes a non-NaN value for `d` - "the latest value published with
+    stamp `≤ T`, of several sharing a stamp the one merged last, a NaN never overrides", with no fold in the statement. -/
+theorem read_value (log : List Version) (h : Ordered log) (T : Int) (st : Store) (hst : history log = some st)
+    (d x : Int) :
+    (d, some x) ∈ biRead st (some T) (-1) ↔
+      ∃ before v after, log = before ++ v :: after ∧ v.stamp ≤ T ∧ (d, some x) ∈ v.ts ∧
+        ∀ u ∈ after, u.stamp ≤ T → ∀ y, (d, some y) ∉ u.ts := by
+  obtain ⟨st', hst', hr⟩ := read_spec log h (some T)
+  rw [hst] at hst'; cases hst'
+  rw [hr, ← lastVal_col_some d T x log h.wf]
+  simp only [specRead, List.mem_map, Prod.mk.injEq]
+  constructor
+  · rintro ⟨d', _, rfl, hv⟩; exact hv
+  · intro hv
+    refine ⟨d, ?_, rfl, hv⟩
+    obtain ⟨r, hr, _⟩ := lastVal_some_mem hv
+    exact mem_dates.mpr ⟨r, (mem_group.mp hr).1, (mem_group.mp hr).2⟩
+
+/-- the same with positions: version `i` publishes `x`, no version `j > i` stamped `≤ T` publishes a non-NaN value -/
+theorem read_value_idx (log : List Version) (h : Ordered log) (T : Int) (st : Store) (hst : history log = some st)
+    (d x : Int) :
+    (d, some x) ∈ biRead st (some T) (-1) ↔
+      ∃ i, ∃ hi : i < log.length, log[i].stamp ≤ T ∧ (d, some x) ∈ log[i].ts ∧
+        ∀ j, ∀ hj : j < log.length, i < j → log[j].stamp ≤ T → ∀ y, (d, some y) ∉ log[j].ts := by
+  rw [read_value log h T st hst]
+  constructor
+  · rintro ⟨before, v, after, rfl, h1, h2, h3⟩
+    refine ⟨before.length, by simp, by simpa using h1, by simpa using h2, ?_⟩
+    intro j hj hij hjT y
+    have hmem : (before ++ v :: after)[j] ∈ after := by
+      have hd : (before ++ v :: after).drop (before.length + 1) = after := by simp
+      have := List.mem_drop_iff_getElem (l := before ++ v :: after) (i := before.length + 1)
+        (a := (before ++ v :: after)[j]) |>.mpr ⟨j - (before.length + 1), by omega, by congr 1; omega⟩
+      rwa [hd] at this
+    exact h3 _ hmem hjT y
+  · rintro ⟨i, hi, h1, h2, h3⟩
+    refine ⟨log.take i, log[i], log.drop (i + 1), ?_, h1, h2, ?_⟩
+    · rw [List.getElem_cons_drop, List.take_append_drop]
+    · intro u hu huT y
+      obtain ⟨k, hk, rfl⟩ := List.mem_iff_getElem.mp hu
+      simp only [List.length_drop] at hk
+      rw [List.getElem_drop] at huT ⊢
+      exact h3 (i + 1 + k) (by omega) (by omega) huT y
+
+/-- **NaN row, declaratively**: the as-of-`T` read shows NaN for date `d` iff `d` was published by `T` and every publication of
+    `d` stamped `≤ T` is NaN -/
+theorem read_nan (log : List Version) (h : Ordered log) (T : Int) (st : Store) (hst : history log = some st) (d : Int) :
+    (d, Option.none) ∈ biRead st (some T) (-1) ↔
+      (∃ v ∈ log, v.stamp ≤ T ∧ d ∈ v.ts.index) ∧ ∀ v ∈ log, v.stamp ≤ T → ∀ y, (d, some y) ∉ v.ts := by
+  obtain ⟨st', hst', hr⟩ := read_spec log h (some T)
+  rw [hst] at hst'; cases hst'
+  rw [← read_dates log h T st hst d, hr]
+  simp only [specRead, TS.index, List.mem_map, Prod.mk.injEq, List.map_map, Function.comp]
+  have hcol : ∀ d', group d' (List.filter (fun r => decide (r.stamp ≤ T)) (logRows log)) = col d' T log := fun _ => rfl
+  constructor
+  · rintro ⟨d', hd', rfl, hv⟩
+    refine ⟨⟨d', hd', rfl⟩, ?_⟩
+    intro v hv' hvT y hy
+    rw [hcol, lastVal_eq_none_iff] at hv
+    have := hv ⟨d', v.stamp, some y⟩ (mem_col.mpr ⟨v, hv', hvT, rfl, rfl, hy⟩)
+    simp at this
+  · rintro ⟨⟨d', hd', rfl⟩, hall⟩
+    refine ⟨d', hd', rfl, ?_⟩
+    rw [hcol, lastVal_eq_none_iff]
+    intro r hr
+    obtain ⟨w, hw, hwT, _, _, hp⟩ := mem_col.mp hr
+    cases hv : r.val with
+    | none => rfl
+    | some y => rw [hv] at hp; exact absurd hp (hall w hw hwT y)
+
+/-! ### histories as the code runs them: `bi_merge` of two empty frames raises (review r5: `history` is total) -/
+
+/-- **when a history returns**: `historyE` is an error exactly for a history whose first two versions are both empty (the second
+    `bi_merge` call concatenates no group); every other history returns the store `history` describes. -/
+theorem historyE_eq (log : List Version) :
+    historyE log = if 2 ≤ log.length ∧ ∀ v ∈ log.take 2, v.ts = [] then .error .value else .ok (history log) := by
+  match log with
+  | [] => rfl
+  | [v] => simp [historyE, mergeStepE, biMergeE, history, biMerge]
+  | v1 :: v2 :: rest =>
+    by_cases hboth : v1.ts = [] ∧ v2.ts = []
+    · have hcond : 2 ≤ (v1 :: v2 :: rest).length ∧ ∀ v ∈ (v1 :: v2 :: rest).take 2, v.ts = [] := by
+        refine ⟨by simp, ?_⟩
+        intro v hv
+        simp only [List.take_succ_cons, List.take_zero, List.mem_cons, List.not_mem_nil, or_false] at hv
+        rcases hv with rfl | rfl
+        · exact hboth.1
+        · exact hboth.2
+      rw [if_pos hcond]
+      have e : mergeStepE (mergeStepE (.ok Option.none) v1) v2 = .error .value := by
+        simp [mergeStepE, biMergeE, Bi, hboth.1, hboth.2]
+      have herr : ∀ l : List Version, l.foldl mergeStepE (.error .value) = .error .value := by
+        intro l; induction l with
+        | nil => rfl
+        | cons a l ih => simpa [List.foldl_cons, mergeStepE] using ih
+      simp only [historyE, List.foldl_cons, e, herr]
+    · have hcond : ¬ (2 ≤ (v1 :: v2 :: rest).length ∧ ∀ v ∈ (v1 :: v2 :: rest).take 2, v.ts = []) := by
+        rintro ⟨_, hall⟩
+        exact hboth ⟨hall v1 (by simp), hall v2 (by simp)⟩
+      rw [if_neg hcond]
+      have hne : Bi v1.ts v1.stamp ++ Bi v2.ts v2.stamp ≠ [] := by
+        intro he
+        simp only [List.append_eq_nil_iff, Bi, List.map_eq_nil_iff] at he
+        exact hboth he
+      have e : mergeStepE (mergeStepE (.ok Option.none) v1) v2 =
+          .ok (some (mergeFrames [Bi v1.ts v1.stamp, Bi v2.ts v2.stamp])) := by
+        simp only [mergeStepE, biMergeE, biMerge]
+        rw [if_neg (by simpa [List.isEmpty_iff] using hne)]
+      have := (historyE_foldl_ok rest _ (mergeFrames_ne_nil _ _ hne)).1
+      simp only [historyE, history_eq, List.foldl_cons, e, this]
+      rfl
+
+/-- **refinement for the histories that return**: for every `Ordered` log whose first two versions are not both empty the code's
+    history returns a store, and that store answers as-of reads and first reads as the publication log does. -/
+theorem read_spec_returns (log : List Version) (h : Ordered log) (hne : log.length < 2 ∨ ∃ v ∈ log.take 2, v.ts ≠ [])
+    (T : Option Int) :
+    ∃ st, historyE log = .ok (some st) ∧ biRead st T (-1) = specRead log T ∧ biRead st T 0 = specFirst log T := by
+  obtain ⟨st, hst, hr⟩ := read_spec log h T
+  obtain ⟨st', hst', hr'⟩ := read_first log h T
+  rw [hst] at hst'; cases hst'
+  refine ⟨st, ?_, hr, hr'⟩
+  rw [historyE_eq, if_neg, hst]
+  rintro ⟨h2, hall⟩
+  rcases hne with hlt | ⟨v, hv, hvne⟩
+  · omega
+  · exact hvne (hall v hv)
+
+/-- ... and the other `Ordered` histories raise: the theorems about `history` do not speak about them -/
+theorem historyE_raises (log : List Version) (h2 : 2 ≤ log.length) (hall : ∀ v ∈ log.take 2, v.ts = []) :
+    historyE log = .error .value := by
+  rw [historyE_eq, if_pos ⟨h2, hall⟩]
+
+example : Ordered [⟨10, []⟩, ⟨11, []⟩] ∧ historyE [⟨10, []⟩, ⟨11, []⟩] = .error .value :=
+  ⟨⟨by simp, by decide, by decide⟩, historyE_raises _ (by simp) (by simp)⟩
+
 /-! `lastVal` (the fold used by `specRead`) is determined by three equations: nothing published gives NaN,
     a later non-NaN publication overrides, a later NaN publication changes nothing. -/
 
@@ -220,6 +557,17 @@ def demo : List Version :=
     (biRead st (some 10) (-1)).any fun q => q.1 == p.1 && (p.2 == Option.none || p.2 == q.2)) == some false
 #guard (history demo).map (fun st => biRead (biMerge (some st) (Bi demo[0]!.ts 10)) (some 10) (-1)) ==
     some [(1, some 5), (2, none), (3, some 1)]
+
+-- no look-ahead is a statement about `what = -1` (`no_lookahead`) and `what = 0` (`no_lookahead_first`) only.  For the other
+-- selectors it is false of the store design: a revert merged under the stamp of the version it reverts (`6@12` then `5@12` after
+-- `5@11`) leaves the row (12, 5) that repeats its predecessor; the NEXT merge - whatever its stamp - drops it (`_drop_repeats`
+-- line 148-152), so "the one before last as of 12" (`what = -2`) changes from 5 to 3 when a version stamped 14 arrives.  The
+-- statement of C17 names `bi_read(store, asof=T)` and `what=0` only; the implementation agrees with the model on these lines.
+def revertDemo : List Version := [⟨10, [(1, some 3)]⟩, ⟨11, [(1, some 5)]⟩, ⟨12, [(1, some 6)]⟩, ⟨12, [(1, some 5)]⟩]
+#guard (history revertDemo).map (fun st => biRead st (some 13) (-2)) == some [(1, some 5)]
+#guard (history (revertDemo ++ [⟨14, [(1, some 9)]⟩])).map (fun st => biRead st (some 13) (-2)) == some [(1, some 3)]
+#guard (history (revertDemo ++ [⟨14, [(1, some 9)]⟩])).map (fun st => (biRead st (some 13) (-1), biRead st (some 13) 0)) ==
+    (history revertDemo).map (fun st => (biRead st (some 13) (-1), biRead st (some 13) 0))
 
 -- the same history handed over in batches (one call with two versions, an empty call, one call with two more)
 #guard (historyL [[demo[0]!, demo[1]!], [], [demo[2]!, demo[3]!]]).map (fun st => biRead st Option.none (-1)) ==
